@@ -28,6 +28,8 @@ structure Quirks where
   dimacsSingleClause : Bool := false
   /-- `to_bqm`: `_ret = <symbol>` takes the `AndConst` branch -/
   retSymbolAndConst : Bool := false
+  /-- `apply_cse` puts the extracted definitions in front of a list whose right-hand sides read names the list binds -/
+  cseHoistsOverBindings : Bool := false
   deriving Repr, DecidableEq, Inhabited
 
 def Quirks.none : Quirks := {}
@@ -42,6 +44,7 @@ def Quirks.ofList (l : List String) : Quirks :=
     identityGateRaises := l.contains "identityGateRaises"
     mctrlXSplits := l.contains "mctrlXSplits"
     dimacsSingleClause := l.contains "dimacsSingleClause"
-    retSymbolAndConst := l.contains "retSymbolAndConst" }
+    retSymbolAndConst := l.contains "retSymbolAndConst"
+    cseHoistsOverBindings := l.contains "cseHoistsOverBindings" }
 
 end QV
